@@ -7,7 +7,17 @@ positions and settings.  Tied to the code by K-task with an exception of each
 class injected at every script step (call, start_response, every iteration,
 write, close) x client disconnect at every write_soon x expose_tracebacks x
 log_socket_errors, run under the REAL worker loop, and by a model-free search
-on what the real code did."""
+on what the real code did.
+
+The hand-over clause ("a file handed over through wsgi.file_wrapper is closed
+once its data has been sent or the connection is torn down") is an
+INTERLEAVING property of the worker (WSGITask.execute -> write_soon(<file>))
+and the I/O thread (handle_close / _flush_some): it is searched by
+harness/task_conc.py on the real HTTPChannel + WSGITask + dispatcher +
+wasyncore.poll under the deterministic scheduler (default, seeded random, PCT
+with 1-3 pre-emptions, lock and attribute granularity, bounded exhaustive
+exploration of the tiniest scenarios) with the close-count monitor at
+quiescence; a failing run is replayed by (scenario, choices)."""
 import json
 
 from harness import task as T
@@ -18,7 +28,7 @@ LEVEL = "proof"
 ASSUMPTIONS = [
     "applications are scripts of WSGI-visible actions; an exception is a value of one of three classes (Exception subclass, OSError subclass, BaseException subclass that is not an Exception) or one of the builtin classes the server itself raises",
     "the worker is the loop of ThreadedTaskDispatcher.handler_thread run in the checking thread; real thread death / KeyboardInterrupt delivery semantics are not modelled",
-    "the file handed over through wsgi.file_wrapper is closed by the channel (handle_close / _flush_some): checked on the real channel by tearing the connection down, modelled only as 'handed over'",
+    "the file handed over through wsgi.file_wrapper is closed by the channel (handle_close / _flush_some): modelled only as 'handed over'; on the real channel it is checked sequentially by tearing the connection down (K-task) and concurrently by the schedule search of harness/task_conc.py (sampled + bounded-exhaustive schedules, not all)",
     "traceback text is an opaque marker returned by a patched traceback.format_exc",
 ]
 
@@ -94,6 +104,128 @@ def judge(case, real, extra, cache):
     return out
 
 
+def conc_search(ctx):
+    """The concurrent hand-over search (harness/task_conc.py).  -> (ok, evidence dict)"""
+    import hashlib
+    import random
+    import time
+    from harness import task_conc as C
+    thorough = ctx.tier == "thorough"
+    rng = random.Random(ctx.rng.getrandbits(48))
+    t0 = time.time()
+    budget = 240.0 if thorough else 21.0
+    st = {"runs": 0, "quiescent": 0, "overrun": 0, "handovers": 0, "race_window_runs": 0, "write_soon_file_raised_ClientDisconnected": 0,
+          "repeated_teardown_closes": 0, "violating_runs": 0, "forced_fair_switches": 0}
+    sites, kinds, discs, policies, grans, verdicts, viol_pol = {}, {}, {}, {}, {}, {}, {}
+    traces = set()
+    best = {}      # violation key -> smallest replay
+    counts = {}
+    samples = []
+
+    def one(name, scn, schedule=(), policy=None, pk="default"):
+        w = C.run_world(scn, schedule=schedule, policy=policy)
+        st["runs"] += 1
+        verdicts[w.verdict] = verdicts.get(w.verdict, 0) + 1
+        policies[pk] = policies.get(pk, 0) + 1
+        grans[scn.granularity] = grans.get(scn.granularity, 0) + 1
+        discs[scn.disc] = discs.get(scn.disc, 0) + 1
+        traces.add(C.trace_hash(w))
+        st["forced_fair_switches"] += getattr(w.sched.policy, "forced", 0)
+        if w.verdict == "overrun":
+            st["overrun"] += 1
+            return w, []
+        st["quiescent"] += 1
+        s = C.stats_of(w)
+        st["handovers"] += s["handed"]
+        st["race_window_runs"] += s["window"]
+        st["write_soon_file_raised_ClientDisconnected"] += s["raised_cd"]
+        st["repeated_teardown_closes"] += s["repeated_teardown"]
+        for k in s["objects"]:
+            kinds[k] = kinds.get(k, 0) + 1
+        for k, v in s["sites"].items():
+            sites[k] = sites.get(k, 0) + v
+        bad = C.monitor(w)
+        if bad:
+            st["violating_runs"] += 1
+            viol_pol[pk] = viol_pol.get(pk, 0) + 1
+        for key, text in bad:
+            counts[key] = counts.get(key, 0) + 1
+            rep = {"kind": "conc", "scenario_name": name, "scenario": scn.to_json(), "choices": list(w.sched.choices),
+                   "policy": pk, "what": text,
+                   "expected": "at quiescence every object the application returned is closed exactly once: iterables and "
+                               "non-seekable files by WSGITask.execute's finally, a handed-over file by the channel when it is "
+                               "drained (_flush_some) or torn down (handle_close); channel out of the map after a disconnect; "
+                               "no worker parked",
+                   "observed": {"violations": [list(b) for b in bad], "objects": w.end["objs"], "final": {k: v for k, v in w.final.items() if k != "blocked"},
+                                "blocked": [list(map(str, b)) for b in w.end["blocked"]]},
+                   "failing_input_found": True}
+            size = (len(json.dumps(rep["scenario"])), len(rep["choices"]))
+            if key not in best or size < best[key][0]:
+                best[key] = (size, rep)
+        return w, bad
+
+    def schedules(name, scn, k):
+        w, _ = one(name, scn)
+        est = max(20, len(w.sched.choices))
+        if len(samples) < 5 and w.end is not None and len(samples) < 5 and (len(samples) == 0 or st["runs"] % 7 == 0):
+            samples.append({"concurrent_scenario": name, "policy": "default", "verdict": w.verdict, "steps": len(w.sched.choices),
+                            "wire_bytes": len(w.wire), "objects": [{kk: o[kk] for kk in ("path", "kind", "handed", "closes", "sites", "queued")} for o in w.end["objs"]],
+                            "client_script": [s[0] if s[0] != "wait_wire" else "wait_wire %d" % s[1] for s in scn.script],
+                            "connected": w.final["connected"], "in_map": w.final["in_map"]})
+        for i in range(k):
+            r = random.Random(rng.getrandbits(48))
+            g = scn.with_granularity("attrs") if i % 3 == 2 else scn
+            e = est * (3 if g.granularity == "attrs" and scn.granularity != "attrs" else 1)
+            if i % 2:
+                d = 1 + (i // 2) % 3
+                one(name, g, policy=C.PCTPolicy(r, d, e), pk="pct%d" % d)
+            else:
+                one(name, g, policy=C.RandomPolicy(r, stay=r.choice([0.0, 0.5, 0.9, 0.97])), pk="random")
+
+    # 1. directed scenarios x (default, random, PCT 1-3) x (locks, attrs)
+    for name, scn in C.directed_scenarios():
+        schedules(name, scn, 24 if thorough else 9)
+    # 2. bounded exhaustive exploration of the tiniest hand-over scenarios (iterative pre-emption bounding)
+    ex = {}
+    quick_plan = {"tiny-file-before-head": (("locks", 2, 200), ("attrs", 1, 360)), "tiny-file-between": (("locks", 2, 200),),
+                  "tiny-file-gated": (("locks", 2, 200), ("attrs", 1, 260))}
+    for name, scn in C.tiny_scenarios():
+        for gran, bound, lim in ((("locks", 2, 4000), ("attrs", 1, 1500)) if thorough else quick_plan.get(name, (("locks", 1, 200),))):
+            g = scn.with_granularity(gran)
+
+            def run_case(prefix, g=g, name=name):
+                w, _ = one(name + "/" + g.granularity, g, schedule=prefix, pk="explore")
+                return w.sched
+            r = C.explore(run_case, bound, limit=lim)
+            lv = r["per_preemption_level"]
+            last = max([i for i, n in enumerate(lv) if n > 0] or [0])
+            ex["%s/%s" % (name, gran)] = {"max_preemptions": bound, "runs": r["runs"], "per_preemption_level": lv,
+                                          "truncated": r["truncated"],
+                                          "complete_up_to_preemptions": bound if not r["truncated"] else last - 1}
+    # 3. random scenarios under random / PCT schedules until the budget is used
+    n_random = 0
+    while time.time() - t0 < budget and n_random < (20000 if thorough else 2500):
+        r = random.Random(rng.getrandbits(48))
+        scn = C.gen_scenario(r)
+        name = "random-%d" % n_random
+        if n_random % 4 == 0:
+            w, _ = one(name, scn)
+        elif n_random % 4 == 1:
+            one(name, scn, policy=C.PCTPolicy(r, r.randint(1, 3), 120 if scn.granularity == "locks" else 400), pk="pct")
+        else:
+            one(name, scn, policy=C.RandomPolicy(r, stay=r.choice([0.0, 0.5, 0.9, 0.97])), pk="random")
+        n_random += 1
+    for key, (_, rep) in sorted(best.items()):
+        rep["runs_with_this_violation"] = counts[key]
+        ctx.report("conc:" + key, "C09 (concurrent hand-over search) fails on the real code in scenario %s: %s" % (rep["scenario_name"], rep["what"]), rep)
+    ok = not best and st["quiescent"] > 0 and st["handovers"] > 0
+    ev = dict(st)
+    ev.update({"distinct_traces": len(traces), "closes_by_site": sites, "objects_by_kind": kinds, "disconnect_points": discs,
+               "policies": policies, "granularity": grans, "verdicts": verdicts, "exploration": ex, "random_scenarios": n_random,
+               "violations_by_kind": counts, "violating_runs_by_policy": viol_pol, "wall_s": round(time.time() - t0, 1)})
+    return ok, ev, samples
+
+
 def run(ctx):
     ctx.translate({"GenTables"})
     ctx.gate()
@@ -152,6 +284,18 @@ def run(ctx):
     ctx.oblige("K-task: extracted model agrees with the real task/channel/worker loop under fault injection at every step", agree)
     ctx.oblige("search: on the real code close() is called exactly once, a failure before output gives the complete 500 and close, a failure after output closes without further bytes, nothing escapes, no traceback unless exposed (outside open known-finding classes)", search_ok)
 
+    try:
+        conc_ok, conc_ev, conc_samples = conc_search(ctx)
+    except Exception as e:  # the harness itself broke on this tree: a broken tie, reported as such
+        import traceback
+        conc_ok, conc_ev, conc_samples = False, {"error": traceback.format_exc()[-900:]}, []
+    ctx.oblige("concurrent hand-over search (real channel + task + dispatcher + poll under the deterministic scheduler; %d runs, "
+               "%d distinct traces, %d hand-overs, %d runs with the teardown inside write_soon(<file>)'s check-to-lock window): at "
+               "quiescence every file / iterable the application returned is closed exactly once by its owner (task: iterables; channel: "
+               "handed-over files, when drained or at teardown), the channel is out of the map after a disconnect, no worker is parked"
+               % (conc_ev.get("runs", 0), conc_ev.get("distinct_traces", 0), conc_ev.get("handovers", 0), conc_ev.get("race_window_runs", 0)),
+               conc_ok, "" if conc_ok else json.dumps(conc_ev.get("violations_by_kind") or conc_ev.get("error") or "no hand-over reached")[:600])
+
     if not props_ok and not ctx.violations:
         ctx.report("c09-proof-broken", "Props/C09.v no longer checks (%s)" % failing,
                    {"failing_input_found": False, "broken": "Props/C09.v via %s" % failing, "log_tail": (log or "")[-1500:]})
@@ -160,13 +304,25 @@ def run(ctx):
         "evaluations": len(cases),
         "distinct_nontrivial": len(nontrivial),
         "rule": "non-trivial = distinct (script shape, fault position, exception class, writes before the fault, close decision, close() count, escaped, 500 served, disconnect position) among runs in which the scripted application raised",
-        "samples": samples,
+        "samples": samples + conc_samples,
+        "concurrent_handover_search": conc_ev,
         "outcome_distribution": dist,
         "first_exception_class_distribution": by_class,
     })
 
 
 def replay(data):
+    if data.get("kind") == "conc":
+        from harness import task_conc as C
+        scn = C.Scenario.from_json(data["scenario"])
+        w = C.run_world(scn, schedule=data["choices"])
+        bad = C.monitor(w)
+        print("scenario=%s verdict=%s steps=%d wire=%d bytes" % (data.get("scenario_name"), w.verdict, len(w.sched.choices), len(w.wire)))
+        print("objects now :", w.end["objs"] if w.end else None)
+        print("final now   :", {k: v for k, v in w.final.items() if k != "blocked"})
+        print("monitor now :", bad)
+        print("observed then:", (data.get("observed") or {}).get("violations"))
+        return 1 if bad else 0
     case = data["case"]
     real, extra = T.run_real(case)
     if data.get("kind") == "search":
